@@ -23,6 +23,7 @@ CONSTANTS
     Types,        \* set of item type names
     InitTypeSet,  \* types that may occur in the initial (parsed) list
     Views,        \* function: view name -> [types |-> SUBSET Types, kind |-> STRING]
+    InPlace,      \* types whose value a string view updates in place (the others are models: always replaced)
     Vals,         \* set of abstract values / keys (small naturals)
     InitLens,     \* initial list lengths
     MaxLen,       \* bound on Len(raw)
@@ -113,7 +114,7 @@ OpDelSlice(v, sl) ==
 OpSetItem(v, i, b) ==
     LET L == Filter(raw, v)  n == Len(L)  pos == VPos(raw, v)  ids == NewIds(1) IN
     IF ~ValidIndex(i, n) THEN Refuse("IndexError", v)
-    ELSE IF Views[v].kind = "str" /\ ty[L[NormIndex(i, n) + 1]] = b[1][1]
+    ELSE IF Views[v].kind = "str" /\ ty[L[NormIndex(i, n) + 1]] = b[1][1] /\ b[1][1] \in InPlace
          THEN Res("", raw, [val EXCEPT ![L[NormIndex(i, n) + 1]] = b[1][2]], ty, L)   \* same kind of value: updated in place
          ELSE Res("", [raw EXCEPT ![pos[NormIndex(i, n) + 1]] = ids[1]],
                   WithNew(val, ids, <<b[1][2]>>), WithNew(ty, ids, <<b[1][1]>>), PySetItem(L, i, ids[1]))
@@ -130,7 +131,7 @@ OpSetSlice(v, sl, b) ==
         ELSE Res("", PySetSlice(raw, sl, ids), nval, nty, PySetSlice(L, sl, ids))
     ELSE \* filtered views only accept same-length assignment (documented refusal)
         IF Len(r) # Len(b) THEN Refuse("ValueError", v)
-        ELSE IF Views[v].kind = "str" /\ (\E j \in 1..Len(r) : ty[L[r[j] + 1]] # b[j][1])
+        ELSE IF Views[v].kind = "str" /\ (\E j \in 1..Len(r) : ty[L[r[j] + 1]] # b[j][1] \/ b[j][1] \notin InPlace)
              THEN Refuse("SKIP", v)      \* a value of another kind replaces the item: covered by setitem only
         ELSE IF Views[v].kind = "str"
              THEN Res("", raw, [id \in DOMAIN val |->
@@ -189,7 +190,7 @@ MSetDefault(v, t, k, nv) ==
 OpReverse(v) ==
     LET L == Filter(raw, v)  n == Len(L) IN
     IF Views[v].kind = "str" THEN
-        IF \E k \in 1..n : ty[L[k]] # ty[L[n + 1 - k]] THEN Refuse("SKIP", v)
+        IF \E k \in 1..n : ty[L[k]] # ty[L[n + 1 - k]] \/ (n >= 2 /\ ty[L[k]] \notin InPlace) THEN Refuse("SKIP", v)
         ELSE Res("", raw,
                  [id \in DOMAIN val |-> IF \E k \in 1..n : L[k] = id
                                         THEN val[L[n + 1 - (CHOOSE k \in 1..n : L[k] = id)]] ELSE val[id]],
